@@ -48,12 +48,14 @@ class SimFS:
         self.listener = None
         self.glob_order = None  # callable(list)->list, owned by the scheduler
         self.aliases = []  # (link spelling, real spelling) of a directory: two names for the same files
+        self.stored_encoding = None  # the files of this run are stored in this encoding (None: plain text)
 
     def reset(self):
         self.files = {}
         self.listener = None
         self.glob_order = None
         self.aliases = []
+        self.stored_encoding = None
 
     # -- a symlinked directory: files are stored under the link spelling (the one the worlds use); the "real"
     # spelling reaches the same files, and os.path.realpath() turns the link spelling into the real one
@@ -106,6 +108,9 @@ class SimFS:
             return io.BytesIO(data)
         if isinstance(data, bytes):
             data = data.decode(kwargs.get("encoding") or "utf-8")
+        elif self.stored_encoding:
+            # the bytes on "disk" are `stored_encoding`; the reader gets them through the encoding it asked for
+            data = data.encode(self.stored_encoding).decode(kwargs.get("encoding") or "utf-8")
         f = io.StringIO(data)
         f.name = p
         return f
